@@ -9,7 +9,7 @@ TECH = "static analysis: "
 
 CLAIMS = {
  "C02": dict(
-  text="Static analysis of structural necessary conditions (not the behavioural model equivalence): a checked bucket-existence test dominates every bucket-scoped storage call in every handler; every Backend/VersionedBackend method of all four implementations can return the error code its contract mandates; deletes never return NoSuchKey; the status table is exhaustive and maps the property's codes to 404/409; every handler error reaches httpError; CopyObject wiring; bucket removal only on the empty arm of the BucketNotEmpty test. Holds for all paths and call sites rather than sampled histories.",
+  text="Static analysis of structural necessary conditions (not the behavioural model equivalence): a checked bucket-existence test dominates every bucket-scoped storage call in every handler; every Backend/VersionedBackend method of all four implementations can return the error code its contract mandates; deletes never return NoSuchKey; the status table is exhaustive and maps the property's codes to 404/409; every handler error reaches httpError; CopyObject wiring; bucket removal only on the empty arm of the BucketNotEmpty test; directories pruned only after an emptiness test of that very directory; the auto-creating existence check only on the addressed bucket. Holds for all paths and call sites rather than sampled histories.",
   note="trusted: go/types, go/ssa, the contract table transcribed from backend.go comments and the property text. Not decided: read-your-writes, copy/overwrite value semantics, agreement with a reference model.",
   tech="SSA dominance/guard queries + interprocedural provenance slices + contract tables", ref="DESIGN.md §4 C02"),
  "C07": dict(
@@ -50,11 +50,11 @@ CLAIMS = {
   tech="provenance slices + dominance, bounds-obligation discharge, static lockset restricted to uploader state", ref="DESIGN.md §4 C14"),
  "C03": dict(
   text="Static analysis of listing membership and field provenance in all four backends on all paths: every Add/AddPrefix is reached only after a positive prefix test of the very key being added, on the right grouped/not-grouped (directory/file) arm, never for delete-marked data, with the iterated key; ETag and Size come from the same stored record as the Key; the two fs backends' listing helpers agree argument by argument (sibling cross-check); AddPrefix de-duplicates; a listing loop passes over a key only for the admissible reasons; deleted nested keys leave no directory behind. Order and Prefix.Match semantics are not decided.",
-  note="trusted: go/ssa, may-flow provenance slices. Not decided: ascending byte order (false today on fs without delimiter), semantics of Prefix.Match, other delimiters.",
+  note="trusted: go/ssa, may-flow provenance slices. Not decided: ascending byte order as a value statement (decided: ordered store or explicit sort by key), semantics of Prefix.Match, other delimiters. Genuine defects found and repaired: F20, F22, F26.",
   tech="guard dominance + provenance slices + sibling leaf-set comparison + loop must-pass-through (silent-skip search)", ref="DESIGN.md §4 C03"),
  "C04": dict(
   text="Static analysis of object-listing pagination on all paths: every listed entry passes the counter and the cnt>=MaxKeys test before the next one and nothing is listed after the bound; IsTruncated is only set together with NextMarker = last examined key, from which the handler derives the V2 token / V1 marker; the token is encoded and decoded with the same base64 alphabet and decode errors answer InvalidToken; the marker entry is skipped after Seek; non-paginating backends refuse a non-empty page before touching their store and the handler's retry/refusal protocol is exact; max-keys clamped, all three marker sources wired.",
-  note="trusted: go/ssa. Not decided: completeness and strict ascent across pages, CommonPrefix once across pages (false today), termination.",
+  note="trusted: go/ssa. Not decided: completeness and strict ascent across pages as value statements, termination. Genuine defect found and repaired: F25 (common prefix repeated across pages).",
   tech="SSA reaches-avoiding (must-pass-through), guard dominance, constant/global identity (codec agreement), provenance slices", ref="DESIGN.md §4 C04"),
  "C08": dict(
   text="Static ordering/wiring analysis of upload rejection on all paths: no rejection can be returned by a handler after the storing call; every PutObject must consume and validate the whole input before its first mutation (memory, bolt: holds; fs backends truncate the destination first — known findings F14) and must enforce the declared size (fs backends do not — known findings F15); Content-MD5 is decoded, wired into the hashing reader that is the stream storage reads, compared at EOF with nothing in between, mismatch → BadDigest, malformed/empty → InvalidDigest; metadata size, key length and Content-Length are checked before storage; a rejected part leaves its slot untouched.",
